@@ -346,6 +346,19 @@ func (r *Run) Release() {
 	}
 }
 
+// SetFree switches between free-running mode (gates do not park; used to bring
+// the system into a warm quiescent state before the explored part starts) and
+// controlled mode.  Call it only while every goroutine is durably blocked.
+func (r *Run) SetFree(on bool) {
+	if on {
+		r.Release()
+		return
+	}
+	r.mu.Lock()
+	r.free = false
+	r.mu.Unlock()
+}
+
 func NewRun() *Run {
 	r := &Run{parked: map[string]*parked{}, goids: map[int64]string{}, spawned: map[string]int{}, done: map[string]bool{}, owner: goid()}
 	setCurrent(r)
